@@ -153,7 +153,11 @@ def build(t, cache):
     elif k == "string":
         c = xo.String
     elif k == "struct":
-        c = type(t[1], (xo.Struct,), {n: build(ft, cache) for n, ft in t[2]})
+        # a third of the fields are declared through an explicit `xo.Field(type)` (same layout, same behaviour as the bare type;
+        # the choice is a function of the names, so a replay builds the same class)
+        import zlib
+        c = type(t[1], (xo.Struct,), {n: (xo.Field(build(ft, cache)) if zlib.crc32((t[1] + "." + n).encode()) % 3 == 0 else build(ft, cache))
+                                      for n, ft in t[2]})
     elif k == "array":
         item = build(t[1], cache)
         shape, order = t[2], t[3]
